@@ -301,6 +301,10 @@ func (f *fz) genMutations(nMut int) {
 		gen = "mut-ohp"
 	default:
 		sc := s.GenScenario(rng, rfix.Shape(rng.IntN(int(rfix.NumShapes))), now.Unix())
+		if sc.Deliver && rng.IntN(6) == 0 {
+			// service destinations: registered, withdrawn, never registered, multicast
+			sc.DstHost = addr.HostSVC([]addr.SVC{addr.SvcCS, addr.SvcDS, addr.SvcDS, addr.SvcCS | addr.SVCMcast, addr.SvcWildcard, addr.SVC(3)}[rng.IntN(6)])
+		}
 		o := pktOpts{L4: rng.IntN(numL4), Ext: rng.IntN(4), Size: 8 + rng.IntN(120), Epic: k == 2 || k == 3, Alerts: rng.IntN(3) == 0}
 		if rng.IntN(4) == 0 {
 			o.L4 = l4TraceReq
@@ -470,6 +474,8 @@ var c08Variants = []starVariant{
 	{Idx: 1, Reuse: true, Auth: true},
 	{Idx: 2, Reuse: false, Auth: false},
 	{Idx: 3, Reuse: false, Auth: true},
+	{Idx: 4, Reuse: true, Auth: false, SvcChurn: true},
+	{Idx: 5, Reuse: false, Auth: true, SvcChurn: true},
 }
 
 func checkC08(r *mon.Run) {
